@@ -832,6 +832,9 @@ var ConfigUpdates = []string{
 	"stakingOptions.maturityTime:109300", "stakingOptions.topValidatorCount:8", "stakingOptions.minSelfDelegationAmount:600000",
 	"evidenceOptions.blockVotesDiff:1100", "propOptions.general.passPercentage:60", "rewardOptions.rewardInterval:150",
 	"bogus.key:1", "nocolon", "stakingOptions.topValidatorCount:1", "feeOption.minFeeDecimal:99",
+	// proposal options of every type (a creation that names them may fail for many reasons; naming them must change nothing)
+	"propOptions.general.passPercentage:67", "propOptions.configUpdate.passPercentage:80", "propOptions.general.initialFunding:2000000000",
+	"propOptions.configUpdate.fundingGoal:20000000000", "propOptions.codeChange.passPercentage:70", "propOptions.general.fundingGoal:30000000000",
 	// the smallest values (the validation of each group has to refuse them: prices are divisors, counts are bounds)
 	"onsOptions.perBlockFees:0", "onsOptions.baseDomainPrice:0", "stakingOptions.topValidatorCount:0", "rewardOptions.rewardInterval:0",
 	"evidenceOptions.blockVotesDiff:0", "feeOption.minFeeDecimal:-1",
